@@ -6,9 +6,11 @@ Umbrella module: `lake build JsonbModel.Proofs.TranslatedAgreeB` re-checks every
   part 2: decode_hex_escape, escape_scalar_string
   part 3: reserve_jentries, replace_jentry (builder.rs and the Encoder methods of ser.rs)
   part 4: get_jentry_by_name
+  part 5: iterate_array / ArrayIterator::next, iteate_object_keys / ObjectKeyIterator::next
 See tools/RS2LEAN.md for the list of theorems.
 -/
 import JsonbModel.Proofs.TranslatedAgreeB1
 import JsonbModel.Proofs.TranslatedAgreeB2
 import JsonbModel.Proofs.TranslatedAgreeB3
 import JsonbModel.Proofs.TranslatedAgreeB4
+import JsonbModel.Proofs.TranslatedAgreeB5
